@@ -274,9 +274,12 @@ func negotiateFeatures(ctx context.Context, s *Session, first, ws bool, features
 		}
 
 		mask, rw, err = data.feature.Negotiate(ctx, s, s.features[data.feature.Name.Space])
-		// Whether the session is ready is decided below from what was advertised,
-		// never by a feature.
-		mask &^= Ready
+		if rw != nil {
+			// A feature that asks for a stream restart cannot finish the
+			// negotiation as well: the features of the restarted stream have not
+			// been seen yet.
+			mask &^= Ready
+		}
 		s.in.d = oldDecoder
 		if err == nil {
 			s.state |= mask
